@@ -10,6 +10,7 @@ from mc import core, grammar as G
 
 ID = 'C14'
 LEVEL = 'model_checking'
+FULL_IN_QUICK = True     # the complete space costs seconds: quick == thorough
 
 
 def violated(kind, pres):
